@@ -329,7 +329,7 @@ func discharge0(o *Obligation, timeout time.Duration) (r OblResult) {
 	// quantified axioms slow every query down and are rarely needed: try without them first
 	if qf := quantifierFree(o.Facts); len(qf) < len(o.Facts) {
 		qa := &Query{Facts: qf, Goal: o.Goal, AbstractNL: true}
-		if sa := Solve(qa, timeout/4+time.Second, false, nil); sa.Verdict == "unsat" {
+		if sa := Solve(qa, stageTimeout(timeout/4+time.Second), false, nil); sa.Verdict == "unsat" {
 			r.Verdict, r.Backend, r.Script = "proved", sa.Solver+"(qf,nl-abstracted)", sa.Script
 			return r
 		}
@@ -338,7 +338,7 @@ func discharge0(o *Obligation, timeout time.Duration) (r OblResult) {
 	// then exactly
 	if hasNonlinear(o.Facts, o.Goal) {
 		qa := &Query{Facts: o.Facts, Goal: o.Goal, Axioms: o.Axioms, AbstractNL: true}
-		if sa := Solve(qa, timeout/3+time.Second, false, nil); sa.Verdict == "unsat" {
+		if sa := Solve(qa, stageTimeout(timeout/3+time.Second), false, nil); sa.Verdict == "unsat" {
 			r.Verdict, r.Backend, r.Script = "proved", sa.Solver+"(nl-abstracted)", sa.Script
 			return r
 		}
@@ -804,6 +804,15 @@ func relevantAll(facts []*Term, goal *Term, rounds, max int) []*Term {
 		}
 	}
 	return out
+}
+
+// stageTimeout: the early (cheaper) solver stages get at least 15 s so that a loaded machine does
+// not push a normally 5-8 s query into the later, harder encodings
+func stageTimeout(d time.Duration) time.Duration {
+	if d < 15*time.Second {
+		return 15 * time.Second
+	}
+	return d
 }
 
 func quantifierFree(facts []*Term) []*Term {
